@@ -68,6 +68,9 @@ var (
 	}
 
 	errParamExp = errors.New("syntax error: invalid parameter expansion")
+
+	// errBailout is the panic value used to unwind the lexer goroutine.
+	errBailout = errors.New("bailout")
 )
 
 type lexer struct {
@@ -141,7 +144,7 @@ func (l *lexer) run() {
 			close(l.done)
 		}
 
-		if e := recover(); e != nil {
+		if e := recover(); e != nil && e != errBailout {
 			// re-panic
 			panic(e)
 		}
@@ -1690,7 +1693,7 @@ func (l *lexer) emit(typ int) {
 	case <-l.cancel:
 		// bailout
 		verifPoint(l, EvBail)
-		panic(nil)
+		panic(errBailout)
 	}
 	verifPoint(l, EvSendAfter)
 	l.mark(0)
